@@ -274,7 +274,7 @@ func run(prop string, spec *PropSpec, tier, repo, verif, onlyRule, replayKey str
 			}
 			nViol++
 			rp := ""
-			if onlyRule == "" {
+			if onlyRule == "" && !dryRun {
 				os.MkdirAll(replayDir, 0o755)
 				rp = filepath.Join(replayDir, prop+"-"+sanitize(o.Key())+".json")
 				b, _ := json.MarshalIndent(map[string]any{
@@ -402,6 +402,12 @@ func run(prop string, spec *PropSpec, tier, repo, verif, onlyRule, replayKey str
 		Violations: nViol,
 	}
 	b, _ := json.MarshalIndent(ev, "", " ")
+	if dryRun {
+		if nViol > 0 {
+			return 1
+		}
+		return 0
+	}
 	os.MkdirAll(filepath.Join(verif, "evidence"), 0o755)
 	if err := os.WriteFile(filepath.Join(verif, "evidence", prop+".json"), b, 0o644); err != nil {
 		fmt.Fprintln(os.Stderr, "evidence:", err)
